@@ -12,8 +12,9 @@ import (
 var parts = map[string]func(*vk.Ctx){}
 
 var harnesses = map[string]func(*vsched.H){
-	"MergeOKCount": harness.MergeOKCount,
-	"MergeReq":     harness.MergeReq,
+	"MergeOKCount":   harness.MergeOKCount,
+	"MergeReq":       harness.MergeReq,
+	"RouterScenario": harness.RouterScenario,
 }
 
 func main() {
